@@ -5,6 +5,7 @@ package geom
 import "math"
 
 func init() {
+	vfHarnesses["C16_densify_repeated"] = vfhC17DensifyRepeated
 	vfHarnesses["C17_snap_negative_hunt"] = vfhC17SnapNegativeHunt
 	vfHarnesses["C17_simplify_rings"] = vfhC17SimplifyRings
 	vfHarnesses["C17_simplify"] = vfhC17Simplify
